@@ -118,9 +118,13 @@ func concurrentPhase(run *ev.Run) {
 		// loose[j]: operation j released two or more held operations - one key may then go
 		// through a value that is in neither the state before nor the state after
 		loose := make([]bool, nOps+2)
+		// multi[j]: operation j changed more than one key (it released a held operation): between
+		// the two changes the instance is in neither the state before nor the state after
+		multi := make([]bool, nOps+2)
 		for k := 0; k < nOps && len(probs) == 0; k++ {
 			res, p := x.Do(specs[k])
 			loose[k+1] = res.Cascade >= 2
+			multi[k+1] = res.Cascade >= 1
 			probs = append(probs, p...)
 			states = append(states, x.M.Contents())
 			done.Add(1)
@@ -156,6 +160,29 @@ func concurrentPhase(run *ev.Run) {
 			if skip {
 				run.Count("concurrent_gets_not_judged_mid_run", 1)
 				continue
+			}
+			// GetRIB holds the instance's lock for the whole instance: what a Get reports for one
+			// instance is that instance as it was after ONE of the operations in the window - not
+			// a mixture of several moments (tables read at different times)
+			multiKey := false
+			for j := o.lo; j <= top; j++ {
+				multiKey = multiKey || multi[j]
+			}
+			for _, ni := range g.S.NIs {
+				if multiKey {
+					break
+				}
+				whole := false
+				for j := o.lo; j <= top && !whole; j++ {
+					whole = len(canon.Diff(canon.Contents{ni: scope(states[j], []string{ni}, o.tbls)[ni]}, canon.Contents{ni: o.got[ni]})) == 0
+				}
+				if !whole {
+					probs = append(probs, fmt.Sprintf("concurrent-get-not-a-snapshot|%s: what was reported for %s is not the instance's contents after any single operation of the window (tables read at different moments?): %v", label, ni, o.got[ni]))
+					break
+				}
+			}
+			if len(probs) > 0 {
+				break
 			}
 			// every key of every instance, over the union of keys in the window and in the answer
 			for _, ni := range g.S.NIs {
